@@ -5,7 +5,6 @@ import (
 	"encoding/json"
 	"fmt"
 	"os"
-	"sort"
 	"strings"
 
 	"github.com/oasisprotocol/oasis-core/go/storage/mkvs"
@@ -401,6 +400,9 @@ func runC03(r *ev.Run) {
 		b, _ := json.Marshal(v.Artefact)
 		var a c03Artefact
 		_ = json.Unmarshal(b, &a)
+		if _, deep := a.Config.Init["\x20"]; deep {
+			c03Keys = c03DeepKeys
+		}
 		ndb, root, err := c03Prepare(a.Config)
 		if err != nil {
 			fmt.Println("prepare failed:", err)
@@ -423,7 +425,7 @@ func runC03(r *ev.Run) {
 		fmt.Sscan(d, &depth)
 	}
 	alpha := c03Alphabet(nkeys)
-	n := len(alpha)
+	_ = len(alpha)
 	leaf := func(k, v string) uint64 { return (&node.LeafNode{Key: []byte(k), Value: []byte(v)}).Size() }
 	l1 := leaf("\x01\x00", "a")
 	inits := []kv.Contents{
@@ -451,108 +453,157 @@ func runC03(r *ev.Run) {
 		cfg c03cfg
 		l0  int
 	}
-	var shards []shard
-	for _, c := range cfgs {
-		for i := 0; i < n; i++ {
-			shards = append(shards, shard{c, i})
-		}
-	}
-	var names []string
-	for _, l := range alpha {
-		names = append(names, l.String())
-	}
-	r.Set("alphabet", names)
-	r.Set("letters", n)
-	r.Set("depth", depth)
-	r.Set("configs", len(cfgs))
-	ev.ParallelRange(len(shards), r.Seed, func(si int) {
-		sh := shards[si]
-		if r.Expired() {
-			r.Cap("deadline")
-			return
-		}
-		ndb, root, err := c03Prepare(sh.cfg)
-		if err != nil {
-			r.HarnessError("prepare %s: %v", sh.cfg, err)
-			return
-		}
-		version := uint64(1)
-		count := 0
-		depth := depth
-		if sh.cfg.Backend == "pathbadger" {
-			depth--
-		}
-		idx := make([]int, depth)
-		idx[0] = sh.l0
-		seq := make([]l3, depth)
-		var execs int64
-		outcomes := map[string]struct{}{}
-		for {
-			for k := range idx {
-				seq[k] = alpha[idx[k]]
+	deepTag := ""
+	pass := func(cfgs []c03cfg, alpha []l3, label string, depth int, pathLen uint64) {
+		n := len(alpha)
+		var shards []shard
+		for _, c := range cfgs {
+			for i := 0; i < n; i++ {
+				shards = append(shards, shard{c, i})
 			}
-			what := c03Run(sh.cfg, ndb, root, &version, seq)
-			execs++
-			count++
-			if what != "" {
-				best := append([]l3(nil), seq...)
-				for k := 1; k < depth; k++ {
-					if w := c03Run(sh.cfg, ndb, root, &version, seq[:k]); w != "" {
-						best, what = append([]l3(nil), seq[:k]...), w
+		}
+		var names []string
+		for _, l := range alpha {
+			names = append(names, l.String())
+		}
+		r.Set(label+"alphabet", names)
+		r.Set(label+"letters", n)
+		r.Set(label+"depth", depth)
+		r.Set(label+"configs", len(cfgs))
+		ev.ParallelRange(len(shards), r.Seed, func(si int) {
+			sh := shards[si]
+			if r.Expired() {
+				r.Cap("deadline")
+				return
+			}
+			ndb, root, err := c03Prepare(sh.cfg)
+			if err != nil {
+				r.HarnessError("prepare %s: %v", sh.cfg, err)
+				return
+			}
+			version := uint64(1)
+			count := 0
+			depth := depth
+			if sh.cfg.Backend == "pathbadger" {
+				depth--
+			}
+			idx := make([]int, depth)
+			idx[0] = sh.l0
+			seq := make([]l3, depth)
+			var execs int64
+			outcomes := map[string]struct{}{}
+			for {
+				for k := range idx {
+					seq[k] = alpha[idx[k]]
+				}
+				what := c03Run(sh.cfg, ndb, root, &version, seq)
+				execs++
+				count++
+				if what != "" {
+					best := append([]l3(nil), seq...)
+					for k := 1; k < depth; k++ {
+						if w := c03Run(sh.cfg, ndb, root, &version, seq[:k]); w != "" {
+							best, what = append([]l3(nil), seq[:k]...), w
+							break
+						}
+					}
+					var nm []string
+					for _, l := range best {
+						nm = append(nm, l.String())
+					}
+					tag := ""
+					if sh.cfg.ValCap > 0 {
+						tag = " valcap-limited"
+					}
+					if deepTag != "" && sh.cfg.NodeCap > 0 && sh.cfg.NodeCap <= pathLen {
+						tag += deepTag
+					}
+					key := fmt.Sprintf("c03 %s cap=%d/%d%s %s [%s]", sh.cfg.Backend, sh.cfg.NodeCap, sh.cfg.ValCap, tag, sh.cfg.Init, strings.Join(nm, " "))
+					r.Violate(ev.Violation{Engine: "kvmc", Key: key, What: fmt.Sprintf("%s history=[%s]: %s", sh.cfg, strings.Join(nm, " "), what), Artefact: c03Artefact{Config: sh.cfg, Letters: best}})
+				}
+				if len(outcomes) < 256 {
+					outcomes[what] = struct{}{}
+				}
+				// Keep the shared database small: start a new one periodically.
+				if count >= 3000 {
+					ndb.Close()
+					ndb, root, err = c03Prepare(sh.cfg)
+					if err != nil {
+						r.HarnessError("prepare %s: %v", sh.cfg, err)
+						return
+					}
+					version, count = 1, 0
+				}
+				k := depth - 1
+				for k >= 1 {
+					idx[k]++
+					if idx[k] < n {
 						break
 					}
+					idx[k] = 0
+					k--
 				}
-				var nm []string
-				for _, l := range best {
-					nm = append(nm, l.String())
-				}
-				tag := ""
-				if sh.cfg.ValCap > 0 {
-					tag = " valcap-limited"
-				}
-				key := fmt.Sprintf("c03 %s cap=%d/%d%s %s [%s]", sh.cfg.Backend, sh.cfg.NodeCap, sh.cfg.ValCap, tag, sh.cfg.Init, strings.Join(nm, " "))
-				r.Violate(ev.Violation{Engine: "kvmc", Key: key, What: fmt.Sprintf("%s history=[%s]: %s", sh.cfg, strings.Join(nm, " "), what), Artefact: c03Artefact{Config: sh.cfg, Letters: best}})
-			}
-			if len(outcomes) < 256 {
-				outcomes[what] = struct{}{}
-			}
-			// Keep the shared database small: start a new one periodically.
-			if count >= 3000 {
-				ndb.Close()
-				ndb, root, err = c03Prepare(sh.cfg)
-				if err != nil {
-					r.HarnessError("prepare %s: %v", sh.cfg, err)
-					return
-				}
-				version, count = 1, 0
-			}
-			k := depth - 1
-			for k >= 1 {
-				idx[k]++
-				if idx[k] < n {
+				if k < 1 {
 					break
 				}
-				idx[k] = 0
-				k--
 			}
-			if k < 1 {
-				break
+			ndb.Close()
+			r.Add("states", execs)
+			r.Add("transitions", execs*int64(depth+4))
+			if si%37 == 0 {
+				var nm []string
+				for _, l := range seq {
+					nm = append(nm, l.String())
+				}
+				r.Sample(map[string]any{"config": sh.cfg.String(), "history": nm}, 5)
 			}
-		}
-		ndb.Close()
-		r.Add("states", execs)
-		r.Add("transitions", execs*int64(depth+4))
-		if si%37 == 0 {
-			var nm []string
-			for _, l := range seq {
-				nm = append(nm, l.String())
-			}
-			r.Sample(map[string]any{"config": sh.cfg.String(), "history": nm}, 5)
-		}
-	})
+		})
+	}
+	pass(cfgs, alpha, "", depth, 0)
+	// Second universe: a balanced 8-key tree whose paths hold three internal nodes (four once key 10
+	// is inserted) with node caches around that size: eviction of nodes that are in use.
+	c03Keys = c03DeepKeys
+	deepTag = " nodecap<=path"
+	var deepCfgs []c03cfg
+	dcaps := []uint64{2, 3, 5}
+	if r.Thorough() {
+		dcaps = []uint64{2, 3, 4, 5, 6}
+	}
+	for _, nc := range dcaps {
+		deepCfgs = append(deepCfgs, c03cfg{Backend: "badger", Init: c03DeepInit(), NodeCap: nc})
+	}
+	deepCfgs = append(deepCfgs, c03cfg{Backend: "pathbadger", Init: c03DeepInit(), NodeCap: 5})
+	pass(deepCfgs, c03Alphabet(nkeys), "deep_", depth, c03DeepPath)
+	// Third universe: long sequences (cache pressure builds up over many operations) over a small
+	// alphabet on the same tree, node capacities just above the path length (3 internal nodes; key 10
+	// is not used here): these must hold.
+	long := []l3{{Op: "get", Key: []byte{0x00}}, {Op: "get", Key: []byte{0x80}}, {Op: "get", Key: []byte{0xc0}}, {Op: "ins", Key: []byte{0xc0}, Val: []byte("b")}, {Op: "rem", Key: []byte{0x20}}, {Op: "get", Key: []byte{0x20}}}
+	longDepth := 7
+	if r.Thorough() {
+		longDepth = 8
+	}
+	var longCfgs []c03cfg
+	for _, nc := range []uint64{4, 5} {
+		longCfgs = append(longCfgs, c03cfg{Backend: "badger", Init: c03DeepInit(), NodeCap: nc})
+	}
+	pass(longCfgs, long, "long_", longDepth, 3)
+	r.Set("long_depth", longDepth)
 	r.Alias("traces_validated_against_impl", "states")
-	r.Set("rule", "every letter sequence of length depth, per configuration (backend, initial committed contents, node/value cache capacity, observe-every-step or at end); each execution runs on a fresh tree opened at the committed root; closing observation = all gets, full scan, scans from 14 seek positions, on the top of the stack, after committing all overlays, and after tree commit + reopen")
+	r.Set("rule", "every letter sequence of length depth, per configuration (backend, initial committed contents, node/value cache capacity, observe-every-step or at end); each execution runs on a fresh tree opened at the committed root; closing observation = all gets, full scan, scans from 14 seek positions, on the top of the stack, after committing all overlays, and after tree commit + reopen; second universe (deep_*): a balanced 8-key tree {00,20,..,e0} with operation keys 00, 20, c0, 10 and node-cache capacities 2, 3, 5 (thorough 2..6) around the path length; third universe (long_*): every sequence of 7 (thorough 8) letters over {get 00, get 80, get c0, ins c0, rem 20, get 20} on that tree with node capacities 4 and 5 (just above the path length)")
 	r.Assume("modifying a tree while one of its iterators is live is excluded (unspecified by the API)", "values are non-nil byte strings (empty or not)", "keys limited to the 5-key alphabet; seek positions to 14 probes")
-	sort.Strings(names)
 	r.Finish()
+}
+
+// Deep universe of C03: see runC03.
+var c03DeepKeys = [][]byte{{0x00}, {0x20}, {0xc0}, {0x10}, {0xe0}}
+
+// c03DeepPath is the number of internal nodes on the longest path once key 10 is present.
+const c03DeepPath = 4
+
+func c03DeepInit() kv.Contents {
+	c := kv.Contents{}
+	for _, b := range []byte{0x00, 0x20, 0x40, 0x60, 0x80, 0xa0, 0xc0, 0xe0} {
+		c[string([]byte{b})] = []byte("a")
+	}
+	return c
 }
